@@ -10,13 +10,15 @@ VARIABLE st
 
 Auths == {{"owner0"}, {"bob"}, {"mallory"}, {}}
 Fixtures == {"Ftriv", "Fdummy"}
+\* argument lists handed to migrate: [()], [string], [] (nothing to forward), [(), ()]
+DataKinds == {"unit", "str", "empty", "two"}
 Acts(s) ==
     {[name |-> "Upgrade", new |-> f, auth |-> au] : f \in Fixtures, au \in Auths}
-    \cup {[name |-> "Migrate", data |-> d, auth |-> au] : d \in {"unit", "str"}, au \in Auths}
+    \cup {[name |-> "Migrate", data |-> d, auth |-> au] : d \in DataKinds, au \in Auths}
     \cup (IF s.code = "native" /\ Target # "dummy" THEN {[name |-> "HookOpenWindow"]} ELSE {})
     \cup {[name |-> "TransferOwnership", new |-> n, auth |-> {s.owner}] : n \in {"owner0", "bob"}}
     \cup {[name |-> "UpgraderUpgrade", new |-> f, version |-> v, data |-> d, authUp |-> p[1], authMig |-> p[2]] :
-            f \in Fixtures, v \in {"0.1.0", "0.2.0", "9.9.9"}, d \in {"unit", "str"},
+            f \in Fixtures, v \in {"0.1.0", "0.2.0", "9.9.9"}, d \in DataKinds,
             p \in {<<{s.owner}, {s.owner}>>, <<{s.owner}, {}>>, <<{}, {s.owner}>>, <<{}, {}>>,
                    <<{"mallory"}, {"mallory"}>>, <<{s.owner}, {"mallory"}>>}}
 
